@@ -324,8 +324,12 @@ def _numpy_tables():
     return "\n".join(L) + "\n"
 
 
+TABLES_FROM = "unknown"  # where the reserved-name table of the last gen_tables() came from
+
+
 def gen_tables():
     """{relative lean path: content} — rewritten from MESA_REPO on every check"""
+    global TABLES_FROM
     probe = cell_klass_probe()
     implied = _python_implied_names()
     try:
@@ -336,6 +340,7 @@ def gen_tables():
         rest = sorted(set(probe) - set(implied))
         at = {"slots": [], "methods": rest, "properties": [], "classAttrs": [], "gridCellDict": []}
         how = f"probe (AST shape not found: {type(e).__name__})"
+    TABLES_FROM = how
     L = ["/-! GENERATED by harness/layers_common.py `gen_tables()` from mesa/discrete_space/cell.py and grid.py of the",
          "checked repository — rewritten on every check, do not edit.",
          "`cellSlots` … `gridCellDict`: names found in the source (AST of `class Cell` and of the `type(\"GridCell\", …)` call",
@@ -393,7 +398,7 @@ class Impl:
         if kind == "new":
             cls = {"moore": M["OrthogonalMooreGrid"], "vonneumann": M["OrthogonalVonNeumannGrid"],
                    "hex": M["HexGrid"]}[gridclass]
-            self.grid = cls(self.dims, torus=torus, capacity=(cap or None), random=self.model.random)
+            self.grid = cls(self.dims, torus=torus, capacity=cap, random=self.model.random)  # cap: None | 0 | 1 | ...
             self.layers = [(self.grid.empty, "bool")]  # lid 0 = the built-in layer
         else:
             cls = M["SingleGrid"] if kind == "single" else M["MultiGrid"]
@@ -508,10 +513,20 @@ class Impl:
             else:
                 views[name] = tuple(self.canon(dt, l.data[c]) for c in self.cells)
         snap["attached"], snap["views"] = att, views
+        # which layers share their array (legacy `rebind`): the representative is the first layer with that array object
+        objs = [l.data for l, _ in self.layers]
+        snap["alias"] = [next(j for j, o in enumerate(objs) if o is objs[i]) for i in range(len(objs))]
         # the third view: grid.<name> is the layer object itself (new: HasPropertyLayers.__getattr__)
         snap["gattr"] = ({name: getattr(self.grid, name, None) is l for name, l in self.attached().items()}
                          if self.kind == "new" else {})
         if self.kind == "new":
+            # the second registry of add / remove_property_layer: which layer names the grid's own cell class defines
+            # (setattr / delattr on the dynamic GridCell class); judged against the dict by clause (1c) — that each such
+            # attribute reads the very layer is clause (1).  (`hasattr(cell_klass, name)` is no way to ask: a
+            # PropertyDescriptor raises AttributeError when read on the class.)
+            klass = self.grid.cell_klass
+            names = {l.name for l, _ in self.layers} | set(GOOD_NAMES)
+            snap["descr"] = tuple(sorted(n for n in names if type(vars(klass).get(n)).__name__ == "PropertyDescriptor"))
             try:
                 snap["actual"] = tuple(int(self.grid[c].is_empty) for c in self.cells)
             except TypeError as ex:  # a layer shadows Cell.agents / Cell.is_empty
@@ -615,7 +630,8 @@ class Impl:
         s = str(e)
         for pat, why in (("do not match", "dims"), ("already exists", "exists"), ("does not exist", "exists"),
                          ("clashes", "clash"), ("additional input", "ufunc"), ("missing value", "ufunc"),
-                         ("Invalid mode", "mode"), ("must be positive integers", "dims")):
+                         ("Invalid mode", "mode"), ("positive integers", "dims"),
+                         ("size 0 inputs", "size0"), ("zero-size array", "empty")):
             if pat in s:
                 return Reject("Value " + why)
         raise e
@@ -752,6 +768,8 @@ class Impl:
                     layer.data = val  # the property setter is set_cells
                 else:
                     layer.set_cells(val, cond)
+            except ValueError as e:
+                raise self.value_error(e) from None  # np.vectorize(condition) on a layer without entries
             except TypeError as e:
                 if "Cannot cast" in str(e):
                     raise Reject("Type") from None  # np.copyto refuses a cast that is not same_kind
@@ -775,6 +793,8 @@ class Impl:
                     layer.data = arr
                 else:
                     layer.set_cells(arr, cond)
+            except ValueError as e:
+                raise self.value_error(e) from None
             except TypeError as e:
                 if "Cannot cast" in str(e):
                     raise Reject("Type") from None
@@ -823,7 +843,25 @@ class Impl:
         if k == "grab":
             layer, dt = self.layer(int(w[2]))
             self.handles[int(w[1])] = (layer.data, dt)  # an array never changes its dtype
-            self.taint_lid(int(w[2]))
+            return "ok"  # (a reference to grid.empty.data is harmless until it is written through: see hset)
+        if k == "rebind":
+            # legacy `layer.data = <held array>`: a plain attribute, nothing is copied — the layer now shares that array
+            if new:
+                raise Reject("Impl")
+            layer, _ = self.layer(int(w[1]))
+            if int(w[2]) not in self.handles:
+                raise Reject("NoHandle")
+            arr, _ = self.handles[int(w[2])]
+            if tuple(arr.shape) != tuple(self.ldims(layer)):
+                raise Reject("Value dims")  # protocol precondition (Python itself would take any object)
+            if np.shares_memory(arr, self.grid.empty_mask):
+                raise Reject("Impl")  # the grid's own mask as a layer's array is kept out of the protocol
+            layer.data = arr
+            return "ok"
+        if k == "grabmask":
+            if new:
+                raise Reject("Impl")
+            self.handles[int(w[1])] = (self.grid.empty_mask, "bool")  # the property hands out the live array
             return "ok"
         if k == "fromdata":
             if not new:
@@ -850,6 +888,11 @@ class Impl:
                 arr[c] = self.pyval(dt, w[3])
             except IndexError:
                 raise Reject("Index") from None
+            # the user's own overwrite of the emptiness view: a write through a reference that aliases it
+            e = self.named("empty") if new else None
+            view = (e.data if e is not None else None) if new else self.grid.empty_mask
+            if view is not None and np.shares_memory(arr, view):
+                self.tainted = True
             return "ok"
         if k == "dtype":
             layer, dt = self.layer(int(w[1]))
@@ -886,7 +929,10 @@ class Impl:
         if k == "agg":
             layer, dt = self.layer(int(w[1]))
             f = {"sum": np.sum, "max": np.max, "min": np.min}[w[2]]
-            v = layer.aggregate(f) if new else layer.aggregate_property(f)
+            try:
+                v = layer.aggregate(f) if new else layer.aggregate_property(f)
+            except ValueError as e:
+                raise self.value_error(e) from None  # max / min of a layer without entries
             return f"ok v={self.canon('int' if (dt == 'bool' and w[2] == 'sum') else dt, v)}"
         if k in ("place", "move", "remove"):
             return self.agent_op(k, w)
@@ -956,9 +1002,7 @@ class Impl:
             raise Reject("Index")
         others = sum(1 for b, p in self.where.items() if p == c and b != a)
         if new:
-            cell = self.grid[c]
-            if self.cap and others >= self.cap:
-                raise Reject("Full")
+            cell = self.grid[c]  # (a full cell refuses by itself: `Cell.add_agent`, before anything has changed)
         elif self.kind == "single" and others >= 1:
             if k == "move":
                 raise Reject("Full")
@@ -966,10 +1010,15 @@ class Impl:
             self.agents[a] = self.M["CellAgent"](self.model) if new else self.M["Agent"](self.model)
         ag = self.agents[a]
         if new:
-            if k == "move" and a % 2:
-                ag.move_to(cell)
-            else:
-                ag.cell = cell
+            try:
+                if k == "move" and a % 2:
+                    ag.move_to(cell)
+                else:
+                    ag.cell = cell
+            except Exception as e:
+                if "Cell is full" in str(e):
+                    raise Reject("Full") from None
+                raise
         elif k == "place":
             try:
                 self.grid.place_agent(ag, c)
@@ -1043,6 +1092,11 @@ class Impl:
         for name, same in new["gattr"].items():
             if not same and name not in self.gset_names:
                 self.fail("grid-attr", f"grid.{name} is not the attached layer after {' '.join(w)}")
+        # (1c) the two registries of a cell space are one map: the cell class has an attribute for a layer name exactly
+        # while the grid's dict has an entry for it
+        if self.kind == "new":
+            if new["descr"] != tuple(sorted(new["attached"])):
+                self.fail("registries", f"layer attributes of the cell class {new['descr']} != names of the layer dict {sorted(new['attached'])} after {' '.join(w)}")
         if k == "gset" and self.kind == "new":
             if ok and w[1] in old["attached"]:
                 self.fail("grid-attr", f"{' '.join(w)} replaced the attribute of an attached layer")
@@ -1071,6 +1125,8 @@ class Impl:
             want = a
             if k == "modify" and int(w[1]) == lid and is_typed(w[4]):
                 want = spec_result_dtype(w[3], a, w[4])
+            if k == "rebind" and int(w[1]) == lid:
+                want = self.handles[int(w[2])][1]  # the layer takes the dtype of the array it now shares
             if b != want:
                 self.fail("dtype", f"after {' '.join(w)}: layer {lid} has dtype {b}, expected {want} (before: {a})")
         # (4) effect and frame of the successful call on all layer values
@@ -1142,10 +1198,20 @@ class Impl:
                 self.fail("copy", f"{' '.join(w)}: the new layer shares memory with the source array")
             if tuple(made.dimensions) != tuple(arr.shape) or self.dt_of(made) != dt:
                 self.fail("copy", f"{' '.join(w)}: shape/dtype {made.dimensions}/{self.dt_of(made)} of the layer differ from the array's {arr.shape}/{dt}")
+        elif k == "rebind":
+            exp[int(w[1])] = list(old["handles"][int(w[2])])  # the layer reads the held array from now on
         elif k == "hset":
             skip = set(range(len(exp)))  # which layer (if any) the handle still aliases is the model's business
         elif k in ("place", "move", "remove") and empty_lid is not None:
             skip = {empty_lid}  # clause (2) speaks about it
+        # layers that shared the written layer's array before the call see the same write (in place: everything but the
+        # re-pointing modify_cells, which gives only the called layer a new array)
+        if k in ("lset", "cset", "cset2", "setcells", "setfrom", "modcell") and any(i != a for i, a in enumerate(old["alias"])):
+            wl = old["attached"].get(w[1]) if k == "cset" else int(w[1])
+            if wl is not None and wl < len(old["alias"]):
+                for j, a in enumerate(old["alias"]):
+                    if j != wl and a == old["alias"][wl]:
+                        exp[j] = list(exp[wl])
         got = [list(x) for x in new["layers"]]
         for lid in range(max(len(exp), len(got))):
             if lid in skip:
@@ -1254,7 +1320,9 @@ class Impl:
 def parse_header(line):
     w = line.split()
     assert w[0] == "scenario" and len(w) == 6, line
-    return w[1], parse_dims(w[2]), int(w[3]), w[4], w[5] == "1"
+    # CAP: `0` = no capacity (None), `zero` = a capacity of 0 (repair SC3: it is a capacity), N = capacity N
+    cap = None if w[3] == "0" else 0 if w[3] == "zero" else int(w[3])
+    return w[1], parse_dims(w[2]), cap, w[4], w[5] == "1"
 
 
 def run_impl(sc):
@@ -1301,18 +1369,20 @@ class Gen:
                 self.dims = tuple(R.choice([1, 2, 2, 3, 3, 4]) for _ in range(nd))
                 if len(all_cells(self.dims)) <= 48:
                     break
-            self.cap = R.choice([0, 0, 0, 1, 2])
+            self.cap = R.choice([None, None, None, 1, 2] * 4 + [0])
             self.gridclass = R.choice(["moore", "vonneumann", "hex"] if nd == 2 else ["moore", "vonneumann"])
             self.layers = [dict(name="empty", dtype="bool", dims=self.dims, att=True)]
         else:
             self.dims = (R.choice([1, 2, 3, 3, 4]), R.choice([1, 2, 3, 4]))
-            self.cap = 0
+            self.cap = None
             self.gridclass = "-"
             self.layers = []
         self.torus = R.random() < 0.4
         self.cells = all_cells(self.dims)
-        self.lines = [f"scenario {self.kind} {'x'.join(map(str, self.dims))} {self.cap} {self.gridclass} {int(self.torus)}"]
+        captok = "0" if self.cap is None else "zero" if self.cap == 0 else str(self.cap)
+        self.lines = [f"scenario {self.kind} {'x'.join(map(str, self.dims))} {captok} {self.gridclass} {int(self.torus)}"]
         self.handles, self.saved, self.where = [], [], {}
+        self.mask_handles = set()  # handles currently bound to the legacy grid's own mask
         self.muls = 0
         # names the cell class of the running code has (the generated table of the model): a layer may not take them
         self.all_clash = cell_klass_probe() if self.kind == "new" else []
@@ -1344,6 +1414,8 @@ class Gen:
 
     def coord(self, dims, oob=0.04):
         R = self.R
+        if 0 in dims:
+            return tuple(R.randrange(max(d, 1)) for d in dims)  # a layer without entries: every index is out of range
         if R.random() < oob:
             c = [R.randrange(d) for d in dims]
             i = R.randrange(len(dims))
@@ -1369,6 +1441,8 @@ class Gen:
         ids = list(range(len(self.layers)))
         if not ids:
             return None
+        if getattr(self, "force_lid", None) is not None:
+            return self.force_lid
         if self.kind == "new" and prefer_user and len(ids) > 1 and R.random() < 0.93:
             ids = ids[1:]
         if self.rejecting and R.random() < 0.1:
@@ -1412,6 +1486,21 @@ class Gen:
                     dims = dims[::-1]
             else:
                 dims = self.dims
+            if force_name is None and R.random() < (0.2 if self.rejecting else 0.1):
+                # a layer without entries: a zero dimension (new: accepted by np.full, and np.vectorize — conditions,
+                # Python functions — then refuses it; legacy: the constructor refuses)
+                dims = list(dims)
+                dims[R.randrange(len(dims))] = 0
+                self.emit(f"new {name} {'x'.join(map(str, dims))} {dt} {d}")
+                if self.kind == "new":
+                    self.layers.append(dict(name=name, dtype=dt, dims=tuple(dims), att=False))
+                    self.force_lid = len(self.layers) - 1
+                    for f in R.sample([self.op_setcells, self.op_setcells, self.op_modify, self.op_modify, self.op_modify,
+                                       self.op_read, self.op_read, self.op_cell2, self.op_handle, self.op_lset],
+                                      R.randrange(2, 6)):
+                        f()
+                    self.force_lid = None
+                return
             self.emit(f"new {name} {'x'.join(map(str, dims))} {dt} {d}")
             self.layers.append(dict(name=name, dtype=dt, dims=tuple(dims), att=False))
             return
@@ -1583,8 +1672,10 @@ class Gen:
                 else:
                     self.muls += 1
             tok = self.tval(mul=(op == "mul"))
-            self.emit(f"modify {i} {kind} {op} {tok} {self.cond(dt)}")
-            if i < len(self.layers):
+            cond = self.cond(dt)
+            self.emit(f"modify {i} {kind} {op} {tok} {cond}")
+            refused = i < len(self.layers) and 0 in self.layers[i]["dims"] and (kind == "fn" or cond != "-")
+            if i < len(self.layers) and not refused:  # (np.vectorize refuses a layer without entries: no new dtype)
                 nd = spec_result_dtype(op, dt, tok)
                 if nd is not None:
                     self.layers[i]["dtype"] = nd
@@ -1613,13 +1704,32 @@ class Gen:
             h, dims, dt = R.choice(self.handles)
             name = R.choice(GOOD_NAMES)
             self.emit(f"fromdata {name} {h}")
-            self.layers.append(dict(name=name, dtype=dt, dims=tuple(dims), att=False))
+            if 0 not in dims:  # (from_data of an array without entries: IndexError, no layer)
+                self.layers.append(dict(name=name, dtype=dt, dims=tuple(dims), att=False))
             return
-        if not self.handles or R.random() < 0.35:
-            i = self.lid()
+        if self.kind != "new" and self.handles and R.random() < 0.1:
+            # legacy `layer.data = <held array>`: two layers may now share one array; follow up with writes through either
+            h, dims, hdt = R.choice(self.handles)
+            cands = [i for i, l in enumerate(self.layers) if tuple(l["dims"]) == tuple(dims)]
+            i = R.choice(cands) if cands and R.random() < 0.9 else self.lid()
             if i is None:
                 return self.op_create()
+            self.emit(f"rebind {i} {h}")
+            if i < len(self.layers) and tuple(self.layers[i]["dims"]) == tuple(dims) and (h, "mask") not in self.mask_handles:
+                self.layers[i]["dtype"] = hdt
+            return
+        if not self.handles or R.random() < 0.35:
             h = R.randrange(3)
+            if self.kind != "new" and R.random() < 0.25:
+                # legacy: a reference to grid.empty_mask (the live array): reads through it follow the agents
+                self.emit(f"grabmask {h}")
+                self.handles = [x for x in self.handles if x[0] != h] + [(h, self.dims, "bool")]
+                self.mask_handles.add((h, "mask"))
+                return
+            i = 0 if (self.kind == "new" and R.random() < 0.12) else self.lid()
+            if i is None:
+                return self.op_create()
+            self.mask_handles.discard((h, "mask"))
             self.emit(f"grab {h} {i}")
             if i < len(self.layers):
                 self.handles = [x for x in self.handles if x[0] != h] + [(h, self.layers[i]["dims"], self.layers[i]["dtype"])]
@@ -1681,7 +1791,7 @@ class Gen:
         others = sum(1 for b, p in self.where.items() if p == c and b != a)
         if self.kind == "single":
             return others == 0
-        if self.kind == "new" and self.cap:
+        if self.kind == "new" and self.cap is not None:
             return others < self.cap
         return True
 
@@ -1777,11 +1887,43 @@ def gen_scenario(R, kind=None, rejecting=False, n_ops=None):
 def tags(sc, obs):
     w0 = sc.lines[0].split()
     yield "impl:" + w0[1]
+    if w0[1] == "new":
+        yield "capacity:" + ("none" if w0[3] == "0" else w0[3])
     yield "ndim:" + str(len(w0[2].split("x")))
     seen = set()
+    zero = set()  # ids of layers without entries
+    eref = set()  # handles that (at the time they were taken) alias the emptiness array
+    rebound = False
     for l, o in zip(sc.lines[1:], obs[1:]):
         w = l.split()
         t = ["op:" + w[0]]
+        if w[0] in ("grab", "grabmask") and o.startswith("ok"):
+            if w[0] == "grabmask" or (w0[1] == "new" and w[2] == "0"):
+                eref.add(w[1])
+                t.append("emptiness-ref:taken:" + w[0])
+            else:
+                eref.discard(w[1])
+        if w[0] == "rebind":
+            t.append("rebind:" + ("ok" if o.startswith("ok") else o[4:].replace(" ", "-")))
+            if o.startswith("ok"):
+                rebound = True
+        if rebound and w[0] in ("lset", "cset", "setcells", "setfrom", "modcell", "modify") and o.startswith("ok"):
+            t.append("after-rebind:" + w[0])
+        if w[0] in ("hget", "hdump", "hset") and w[1] in eref and o.startswith("ok"):
+            t.append("emptiness-ref:" + ("write" if w[0] == "hset" else "read"))
+        if w[0] == "new" and "0" in w[2].split("x"):
+            t.append("size0:new:" + ("ok" if o.startswith("ok") else "refused"))
+            if o.startswith("ok id="):
+                zero.add(o.split("=")[1])
+        if w[0] in ("setcells", "setfrom", "modify", "lsel", "agg", "cset2", "cget2", "attach", "dump", "lset", "lget", "grab") \
+                and (w[2] if w[0] == "grab" else w[1]) in zero:
+            how = ("ok" if o.startswith("ok") else o[4:].replace(" ", "-"))
+            form = ""
+            if w[0] == "modify":
+                form = ":" + w[2] + (":cond" if w[5] != "-" else "")
+            elif w[0] in ("setcells", "setfrom"):
+                form = ":cond" if w[3] != "-" else ""
+            t.append(f"size0:{w[0]}{form}:{how}")
         if o.startswith("err"):
             t.append("reject:" + w[0] + ":" + o[4:].replace(" ", "-"))
         if w[0] == "select" and o.startswith("ok"):
